@@ -93,11 +93,11 @@ func writeSitesIn(fn *ssa.Function, exempt func(*ssa.Function) bool) []ssa.CallI
 
 func runC03(c *Ctx) {
 	p := c.Prog
-	c.Rule("R3.0", "the TrafficRouting sub-state is entered only after upgrade-done, or by a jump between steps of equal replicas", 4)
+	c.Rule("R3.0", "the TrafficRouting sub-state is entered only after upgrade-done, or by a jump between steps of equal replicas", 3)
 	c.Rule("R3.0j", "the jump compares the target step with the step that was current before the cursor moved", 2)
 	c.Rule("R3.1", "who may route: DoTrafficRouting is called only from the TrafficRouting case / Progressing phase", 3)
-	c.Rule("R3.2", "DoTrafficRouting: EnsureRoutes only after grace wait, revisions known, canary Service present, and not in the same pass as a Service write", 8)
-	c.Rule("R3.3", "verified means unchanged: after a route write no EnsureRoutes implementation can return true", 6)
+	c.Rule("R3.2", "DoTrafficRouting: EnsureRoutes only after grace wait, revisions known, canary Service present, and not in the same pass as a Service write", 6)
+	c.Rule("R3.3", "verified means unchanged: after a route write no EnsureRoutes implementation can return true", 4)
 	c.Rule("R3.4", "first traffic step: stable Service pinned successfully before the Upgrade state is entered", 2)
 
 	sc, ok := loadStepConsts(c, "R3.0")
